@@ -533,7 +533,9 @@ def _check(args):
     if st0 != st1:
         return {"i": i, "input": desc, "what": f"the original form gives {st0} ({x0[:150] if st0 != 'ok' else 'XForm'}) and the rewritten one {st1} ({x1[:150] if st1 != 'ok' else 'XForm'})"}
     if st0 == "pyxerr":
-        if renumber(x0, maps) != x1 and sorted(re.sub(r"\d+", "N", x0)) != sorted(re.sub(r"\d+", "N", x1)):
+        # a form with several broken references is refused for the first one met, which depends on the column order: the kind of refusal is compared
+        ref_kind = lambda m: re.sub(r"\$\{[^}]*\}|'[^']*'", "X", m) if "There has been a problem trying to replace" in m else None      # noqa: E731
+        if renumber(x0, maps) != x1 and sorted(re.sub(r"\d+", "N", x0)) != sorted(re.sub(r"\d+", "N", x1)) and not (ref_kind(x0) and ref_kind(x0) == ref_kind(x1)):
             return {"i": i, "input": desc, "what": f"different rejection: {x0[:200]!r} vs {x1[:200]!r}"}
         return {"i": i, "ok": True, "key": ("err", x0[:40]), "n": len(log), "log": log, "carrier": carrier}
     if renumber(x0, maps) != x1:
